@@ -243,6 +243,8 @@ def r4_wiring(facts, rep):
 
 
 def run(fx, rep, tier):
+    from . import foundation as _fnd
+    _fnd.units(fx["dev"], rep, "C04-F", fx, tier)
     rep.assume("not decided: that the reconstruction heuristic (bases_match / inner_match) picks a value-preserving power for "
                "every mix of units; per step the value bookkeeping is R3")
     for cfg, facts in fx.items():
